@@ -234,7 +234,7 @@ def run(rep):
                     if b_[0] != 'sym':
                         touched_.append(show(a_)[:90])
                 rep.check(not touched_, "R07.d", "gis/grid.py", s.func.name, f"{s.shim.name}: `{dn_}` reaches the kernel as given (type / layout conversions only)",
-                          f"{touched_[:1]}", line=s.call.lineno)
+                          f"{touched_[:1]}", line=s.call.lineno, firm=True)
             geo = {k_: pargs.get(k_) for k_ in want_geo if k_ in s.shim.params}
             okg = all(v is not None and pq.same(norm_geo(v), want_geo[k_]) for k_, v in geo.items())
             rep.check(okg, "R07.d", "gis/grid.py", s.func.name, f"{s.shim.name}: geometry arguments are the grid's own attributes, bound to the parameters of the same meaning",
